@@ -6,6 +6,8 @@
 From AwVerif Require Import Base.Prelude Model.StoreBase Model.SqliteStore Model.PyFloat Model.Window
   Model.WindowFloat Proofs.WindowRound Proofs.WindowSqlite Proofs.WindowAll Proofs.WindowFloat
   Proofs.WindowSqliteFloat.
+From AwVerif Require Import Model.PeeweeStore Model.SqliteDate Proofs.WindowSpec Proofs.WindowPeewee
+  Proofs.SqliteDate.
 
 (* the code's float expressions (binary64 division, int()) compute the integer model, for
    every aware datetime (utc instant, utcoffset) *)
@@ -39,3 +41,77 @@ Print Assumptions C03_window_sqlite_float.
 Example ex_agrees : agrees_with plo_float sq_param_ceil /\ agrees_with phi_float sq_param_floor.
 Proof. exact (conj plo_float_agrees phi_float_agrees). Qed.
 
+
+(* ------------------------------------------------------------------------- *)
+(* peewee: the oracle hypothesis sql_end_ok discharged for the MODEL of SQLite 3.40.1's date
+   arithmetic (Model/SqliteDate.v: julianday = iJD/86400000.0, the binary64 expression
+   (jd - 2440587.5) * 86400.0 + cell, the 'unixepoch' modifier r = x*1000.0 + 210866760000000.0,
+   iJD = (i64)(r + 0.5)).  The engine's arithmetic is modelled, not verified: the model is
+   compared bit for bit with the engine's TEXT output on every stored row of every run.
+     cell_near d cell   the duration cell is a finite double within 1/64 us of the duration d
+     cells_ok cellf     cellf d is such a cell for every 0 <= d <= 24 h (peewee_cell: the
+                        float total_seconds() gives, ex_cells_ok)
+     sqlite_end_us cellf t d   the printed instant (us) of a row (t, d); equals the model
+                        sd_end_us t (cellf d) on every whole-millisecond t (C03_sql_end_model) *)
+
+(* the model's end instant: a whole millisecond within 562 us of ts + dur (measured on the
+   engine: 535 us) *)
+Theorem C03_sql_end_model_bound : forall t d cell,
+  t mod 1000 = 0 -> 0 <= t -> 0 <= d <= 86400000000 -> t + d < 2 ^ 52 -> cell_near d cell ->
+  exists v, sd_end_us t cell = Ok v /\ v mod 1000 = 0 /\ Z.abs (v - (t + d)) <= 562.
+Proof. exact sd_end_us_bound. Qed.
+Print Assumptions C03_sql_end_model_bound.
+
+Theorem C03_sql_end_model : forall cellf t d, cells_ok cellf ->
+  t mod 1000 = 0 -> 0 <= t -> 0 <= d <= DAY_US -> t + d < 2 ^ 52 ->
+  sd_end_us t (cellf d) = Ok (sqlite_end_us cellf t d) /\
+  sqlite_end_us cellf t d mod 1000 = 0 /\ Z.abs (sqlite_end_us cellf t d - (t + d)) <= 562.
+Proof. exact sqlite_end_us_model. Qed.
+Print Assumptions C03_sql_end_model.
+
+Theorem C03_sql_end_ok : forall cellf, cells_ok cellf -> sql_end_ok (sqlite_end_us cellf).
+Proof. exact sqlite_end_us_ok. Qed.
+Print Assumptions C03_sql_end_ok.
+
+(* C03_complete_peewee / C03_sound_peewee / C03_window_peewee of Props/C03.v without the oracle
+   premise: the start test is the engine model's *)
+Theorem C03_complete_peewee_sqlite : forall cellf, cells_ok cellf ->
+  forall c b es, pw_stored c b = Some es -> Forall pw_dom es -> forall ws we e,
+  In e es -> meets 2000 ws we e = true ->
+  exists U, pw_read (sqlite_end_us cellf) c b (-1) ws we = Ok (OEvents U) /\
+            In (pw_clip (fst (bucket_get_round ws we)) (snd (bucket_get_round ws we)) e) U.
+Proof. exact (fun cellf C => pw_complete _ (sqlite_end_us_ok cellf C)). Qed.
+Print Assumptions C03_complete_peewee_sqlite.
+
+Theorem C03_sound_peewee_sqlite : forall cellf, cells_ok cellf ->
+  forall c b es, pw_stored c b = Some es -> Forall pw_dom es -> forall ws we, ordered ws we ->
+  forall limit L x, pw_read (sqlite_end_us cellf) c b limit ws we = Ok (OEvents L) -> In x L ->
+  exists e, In e es /\
+    x = pw_clip (fst (bucket_get_round ws we)) (snd (bucket_get_round ws we)) e /\
+    meets (-1000) (fst (bucket_get_round ws we)) (snd (bucket_get_round ws we)) e = true /\
+    (forall w, snd (bucket_get_round ws we) = Some w -> ts e <= w) /\
+    meets (-2000) ws we e = true.
+Proof. exact (fun cellf C => pw_sound _ (sqlite_end_us_ok cellf C)). Qed.
+Print Assumptions C03_sound_peewee_sqlite.
+
+Theorem C03_window_peewee_sqlite : forall cellf c b es ws we, cells_ok cellf ->
+  pw_stored c b = Some es -> Forall pw_dom es -> ordered ws we ->
+  (forall e, In e es -> meets DELTA ws we e = true ->
+     exists U, pw_read (sqlite_end_us cellf) c b (-1) ws we = Ok (OEvents U) /\
+               In (pw_clip (fst (bucket_get_round ws we)) (snd (bucket_get_round ws we)) e) U) /\
+  (forall limit L x, pw_read (sqlite_end_us cellf) c b limit ws we = Ok (OEvents L) -> In x L ->
+     exists e, In e es /\
+               x = pw_clip (fst (bucket_get_round ws we)) (snd (bucket_get_round ws we)) e /\
+               meets (- DELTA) ws we e = true).
+Proof. exact (fun cellf c b es ws we C => pw_window_delta _ c b es ws we (sqlite_end_us_ok cellf C)). Qed.
+Print Assumptions C03_window_peewee_sqlite.
+
+(* non-vacuity: the cell peewee.py writes (timedelta.total_seconds(), Model/Codec.v) qualifies;
+   the negative-duration witness row of harness/c03_witness.py: an event of 0.9996 s ending
+   400 us before a whole second prints as that whole second *)
+Example ex_cells_ok : cells_ok peewee_cell.
+Proof. exact peewee_cells_ok. Qed.
+Example ex_sql_end_witness :
+  sd_end_us 1600000000000000 (peewee_cell 999600) = Ok 1600000001000000 /\
+  sqlite_end_us peewee_cell 1600000000000000 999600 = 1600000001000000.
+Proof. split; vm_compute; reflexivity. Qed.
